@@ -160,7 +160,9 @@ def run_rational_case(case, ctx):
     k, c0 = round(rnd.uniform(0.5, 2.0), 3), round(rnd.uniform(1.1, 2.5), 3)
     x0, z0 = round(rnd.uniform(-1, 1), 3), round(rnd.uniform(-1, 1), 3)
     pw = rnd.choice(['**', '^'])
-    eqs = [f"x' = -x + k*({c0} + x*x){pw}({p}/{q}) + z*{p2}/{q2}", f"z' = -z*({c0} + z*z){pw}(-{p}/{q}) + {p2}/{q2} + k*x"]
+    # (rationals as a whole exponent, as a factor, as a stand-alone term, inside a call and as a summand of an exponent)
+    eqs = [f"x' = -x + k*({c0} + x*x){pw}({p}/{q}) + z*{p2}/{q2} + sin(x + {p}/{q})",
+           f"z' = -z*({c0} + z*z){pw}(-{p}/{q}) + {p2}/{q2} + k*x - 0.1*({c0} + x*x){pw}(k + {p2}/{q2})"]
     res = {'features': [b, 'rational_numbers', pw], 'risk': [], 'sig': stable_hash([eqs, b, x0, z0, k]), 'nontrivial': True}
     try:
         op = OperatorTemplate(name='rat_op', equations=eqs, variables={'x': f'output({x0})', 'z': f'variable({z0})', 'k': k})
@@ -177,7 +179,8 @@ def run_rational_case(case, ctx):
             y = np.zeros(2)
             y[int(smap['n/rat_op/x'])], y[int(smap['n/rat_op/z'])] = x, z
             got = observe.call_vf(obs, obs['args'], y.copy())
-            exp = {'x': -x + k * (c0 + x * x) ** (p / q) + z * p2 / q2, 'z': -z * (c0 + z * z) ** (-p / q) + p2 / q2 + k * x}
+            exp = {'x': -x + k * (c0 + x * x) ** (p / q) + z * p2 / q2 + np.sin(x + p / q),
+                   'z': -z * (c0 + z * z) ** (-p / q) + p2 / q2 + k * x - 0.1 * (c0 + x * x) ** (k + p2 / q2)}
             for v in ('x', 'z'):
                 g = float(got[int(smap[f'n/rat_op/{v}'])])
                 if not abs(g - exp[v]) <= 1e-9 * max(1.0, abs(exp[v])):
